@@ -372,10 +372,89 @@ const (
 	layoutSingle = "single-file"
 )
 
-func configYAML(layout string, cur Schema) string {
+// Opts are the documented options of the resolver: section of gqlgen.yml (codegen/config
+// ResolverConfig) besides the layout. The zero value is the default configuration.
+type Opts struct {
+	Type     string `json:"type,omitempty"`              // resolver.type; "" = default "Resolver"
+	FileTmpl string `json:"filename_template,omitempty"` // resolver.filename_template (follow-schema); "" = "{name}.resolvers.go"
+	OmitDoc  bool   `json:"omit_template_comment,omitempty"`
+	Preserve bool   `json:"preserve_resolver,omitempty"` // existing resolver files are not rewritten
+}
+
+func (o Opts) rootType() string {
+	if o.Type == "" {
+		return "Resolver"
+	}
+	return o.Type
+}
+
+// structName is the per-object resolver struct the documentation / template promise:
+// lcFirst(object) + ucFirst(resolver type).
+func (o Opts) structName(object string) string { return lcFirst(object) + ucFirst(o.rootType()) }
+
+// canon maps the receiver / type names of a tree with a custom resolver.type onto the names
+// of the default configuration (Resolver, queryResolver, ...), which is what method keys,
+// positions and signatures in this check are written in.
+func (o Opts) canon(name string) string {
+	t := o.rootType()
+	if name == t {
+		return "Resolver"
+	}
+	suf := ucFirst(t)
+	if len(name) > len(suf) && strings.HasSuffix(name, suf) && name[0] >= 'a' && name[0] <= 'z' {
+		return strings.TrimSuffix(name, suf) + "Resolver"
+	}
+	if t != "Resolver" && (name == "Resolver" || strings.HasSuffix(name, "Resolver")) {
+		return name + "_literal" // not a resolver type of this tree
+	}
+	return name
+}
+
+// resolverFile is the follow-schema resolver file for schema file <name>.graphql.
+func (o Opts) resolverFile(name string) string {
+	t := o.FileTmpl
+	if t == "" {
+		t = "{name}.resolvers.go"
+	}
+	return "graph/" + strings.ReplaceAll(t, "{name}", name)
+}
+
+func (o Opts) String() string {
+	var ps []string
+	if o.Type != "" {
+		ps = append(ps, "type="+o.Type)
+	}
+	if o.FileTmpl != "" {
+		ps = append(ps, "filename_template="+o.FileTmpl)
+	}
+	if o.OmitDoc {
+		ps = append(ps, "omit_template_comment")
+	}
+	if o.Preserve {
+		ps = append(ps, "preserve_resolver")
+	}
+	if len(ps) == 0 {
+		return "default-options"
+	}
+	return strings.Join(ps, ",")
+}
+
+func configYAML(layout string, cur Schema, o Opts) string {
 	res := "resolver:\n  layout: follow-schema\n  dir: graph\n  package: graph\n"
 	if layout == layoutSingle {
 		res = "resolver:\n  layout: single-file\n  filename: graph/resolver.go\n  package: graph\n"
+	}
+	if o.Type != "" {
+		res += "  type: " + o.Type + "\n"
+	}
+	if o.FileTmpl != "" && layout == layoutFollow {
+		res += "  filename_template: \"" + o.FileTmpl + "\"\n"
+	}
+	if o.OmitDoc {
+		res += "  omit_template_comment: true\n"
+	}
+	if o.Preserve {
+		res += "  preserve_resolver: true\n"
 	}
 	models := ""
 	if cur.resolverFields()[methodKey("Item", "owner")] {
@@ -392,6 +471,7 @@ func configYAML(layout string, cur Schema) string {
 // hand-editable Go files.
 type State struct {
 	Layout   string
+	Opts     Opts
 	Cur, Gen Schema
 	Go       map[string]string // path relative to the project -> content
 
@@ -409,6 +489,7 @@ func (s *State) Hash() string {
 	h := sha256.New()
 	w := func(k, v string) { fmt.Fprintf(h, "%d:%s\x00%d:%s\x00", len(k), k, len(v), v) }
 	w("layout", s.Layout)
+	w("options", s.Opts.String())
 	for _, f := range schemaFiles {
 		w("cur/"+f, s.Cur.render()[f])
 		w("gen/"+f, s.Gen.render()[f])
@@ -427,7 +508,7 @@ func (s *State) Hash() string {
 
 // projectFiles renders the state into files for probe.WriteProject.
 func (s *State) projectFiles() map[string]string {
-	files := map[string]string{"gqlgen.yml": configYAML(s.Layout, s.Cur)}
+	files := map[string]string{"gqlgen.yml": configYAML(s.Layout, s.Cur, s.Opts)}
 	for f, c := range s.Cur.render() {
 		files[f] = c
 	}
@@ -443,6 +524,7 @@ func (s *State) projectFiles() map[string]string {
 // TreeSpec identifies one initial state.
 type TreeSpec struct {
 	Layout string   `json:"layout"`
+	Opts   Opts     `json:"options"`
 	Bodies []string `json:"bodies"` // body element for Query.alpha, Query.beta, Query.gamma, Mutation.put, Mutation.beta, Item.owner, Query.delta
 	Decls  []string `json:"decls"`  // declaration elements added to the resolver files
 }
@@ -469,25 +551,27 @@ func (t TreeSpec) String() string {
 	if uniform {
 		b = "all:" + t.Bodies[0]
 	}
-	return fmt.Sprintf("%s bodies[%s] decls[%s]", t.Layout, b, strings.Join(t.Decls, ","))
+	return fmt.Sprintf("%s %s bodies[%s] decls[%s]", t.Layout, t.Opts, b, strings.Join(t.Decls, ","))
 }
 
-func fileTag(path string) string {
+func fileTag(layout string, o Opts, path string) string {
 	switch {
-	case strings.HasSuffix(path, "a.resolvers.go"):
+	case layout == layoutSingle:
+		return "S"
+	case path == o.resolverFile("a"):
 		return "A"
-	case strings.HasSuffix(path, "b.resolvers.go"):
+	case path == o.resolverFile("b"):
 		return "B"
 	}
 	return "S"
 }
 
 // isResolverFile tells which Go files hold resolver methods for a layout.
-func isResolverFile(layout, path string) bool {
+func isResolverFile(layout string, o Opts, path string) bool {
 	if layout == layoutSingle {
 		return path == "graph/resolver.go"
 	}
-	return strings.HasSuffix(path, ".resolvers.go")
+	return path == o.resolverFile("a") || path == o.resolverFile("b")
 }
 
 func recvTypeName(d *ast.FuncDecl) string {
@@ -546,7 +630,12 @@ func userEdit(spec TreeSpec, path, src string) (string, map[string]string, error
 		return "", nil, fmt.Errorf("fresh file %s does not parse: %v", path, err)
 	}
 	off := func(p token.Pos) int { return fset.Position(p).Offset }
-	tag := fileTag(path)
+	tag := fileTag(spec.Layout, spec.Opts, path)
+	subst := func(t string) string {
+		t = strings.ReplaceAll(t, "$F", tag)
+		t = strings.ReplaceAll(t, "$ROOT", spec.Opts.rootType())
+		return strings.ReplaceAll(t, "$QRES", spec.Opts.structName("Query"))
+	}
 	var des []*DeclElem
 	for _, n := range spec.Decls {
 		d := declByName(n)
@@ -561,7 +650,7 @@ func userEdit(spec TreeSpec, path, src string) (string, map[string]string, error
 	var uses []string
 	for _, d := range des {
 		if d.Use != "" {
-			uses = append(uses, "\t"+strings.ReplaceAll(d.Use, "$F", tag))
+			uses = append(uses, "\t"+subst(d.Use))
 		}
 	}
 
@@ -569,7 +658,7 @@ func userEdit(spec TreeSpec, path, src string) (string, map[string]string, error
 	var rms [][2]string
 	for _, d := range f.Decls {
 		if fd, ok := d.(*ast.FuncDecl); ok {
-			if recv := recvTypeName(fd); recv != "" && recv != "Resolver" && strings.HasSuffix(recv, "Resolver") {
+			if recv := recvTypeName(fd); recv != "" && spec.Opts.canon(recv) != "Resolver" && strings.HasSuffix(spec.Opts.canon(recv), "Resolver") {
 				rms = append(rms, [2]string{recv, fd.Name.Name})
 			}
 		}
@@ -630,7 +719,7 @@ func userEdit(spec TreeSpec, path, src string) (string, map[string]string, error
 	userDecls := func() {
 		for _, d := range des {
 			if d.Decls != "" {
-				out.WriteString("\n" + strings.ReplaceAll(d.Decls, "$F", tag) + "\n")
+				out.WriteString("\n" + subst(d.Decls) + "\n")
 			}
 		}
 	}
@@ -642,7 +731,8 @@ func userEdit(spec TreeSpec, path, src string) (string, map[string]string, error
 		if isFunc {
 			recv = recvTypeName(fd)
 		}
-		if !isFunc || recv == "" || recv == "Resolver" || !strings.HasSuffix(recv, "Resolver") {
+		crecv := spec.Opts.canon(recv)
+		if !isFunc || recv == "" || crecv == "Resolver" || !strings.HasSuffix(crecv, "Resolver") {
 			// boilerplate: copy with its doc comment
 			start := d.Pos()
 			switch x := d.(type) {
@@ -658,12 +748,12 @@ func userEdit(spec TreeSpec, path, src string) (string, map[string]string, error
 			out.WriteString("\n" + src[off(start):off(d.End())] + "\n")
 			continue
 		}
-		key := recv + "." + fd.Name.Name
+		key := crecv + "." + fd.Name.Name
 		be := bodyByName(spec.bodyOf(key))
 		if be == nil {
 			return "", nil, fmt.Errorf("no body element for %s", key)
 		}
-		rep := func(s string) string { return strings.ReplaceAll(s, "$M", key) }
+		rep := func(s string) string { return subst(strings.ReplaceAll(s, "$M", key)) }
 		doc := ""
 		if be.Doc != "" {
 			doc = rep(be.Doc)
